@@ -17,6 +17,7 @@ structure InvG (m : Mol) (S : List Nat) (start c0 : Nat) (V : List Nat) (T D : L
   treeSnd : (T.map (·.2)).Nodup
   treeMem : ∀ p c, (p, c) ∈ T → p ∈ V ∧ c ∈ V ∧ c ≠ start ∧ c ∈ nk m p
   visChild : ∀ a ∈ V, a = start ∨ a ∈ T.map (·.2)
+  treeAsym : ∀ a b, (a, b) ∈ T → (b, a) ∉ T
   discSymm : ∀ a b, (a, b) ∈ D → (b, a) ∈ D
   discNodup : D.Nodup
   discMem : ∀ a b, (a, b) ∈ D → a ∈ V ∧ b ∈ V ∧ b ∈ nk m a ∧ (a, b) ∉ T
@@ -50,6 +51,7 @@ theorem InvG.perm {m S start c0 V T T' D C C' cyc} (h : InvG m S start c0 V T D 
   treeSnd := (hT.map _).nodup_iff.1 h.treeSnd
   treeMem := fun p c hp => h.treeMem p c (hT.mem_iff.2 hp)
   visChild := fun a ha => (h.visChild a ha).imp id fun x => (hT.map _).mem_iff.1 x
+  treeAsym := fun a b hab x => h.treeAsym a b (hT.mem_iff.2 hab) (hT.mem_iff.2 x)
   discSymm := h.discSymm
   discNodup := h.discNodup
   discMem := fun a b hab => by
@@ -115,6 +117,18 @@ theorem InvG.tree {m S start c0 V T D C cyc} (h : InvG m S start c0 V T D C cyc)
       · exact Or.inl h1
       · exact Or.inr (by simp only [List.map_append]; exact List.mem_append_left _ h1)
     · simp at ha; subst ha; exact Or.inr (by simp)
+  treeAsym := fun a b hab x => by
+    rcases List.mem_append.1 hab with hab | hab
+    · rcases List.mem_append.1 x with x | x
+      · exact h.treeAsym a b hab x
+      · simp only [List.mem_singleton, Prod.mk.injEq] at x
+        exact hc (x.2 ▸ (h.treeMem a b hab).1)
+    · simp only [List.mem_singleton, Prod.mk.injEq] at hab
+      obtain ⟨rfl, rfl⟩ := hab
+      rcases List.mem_append.1 x with x | x
+      · exact hc (h.treeMem _ _ x).1
+      · simp only [List.mem_singleton, Prod.mk.injEq] at x
+        exact hc (x.1 ▸ hp)
   discSymm := h.discSymm
   discNodup := h.discNodup
   discMem := fun a b hab => by
@@ -156,6 +170,7 @@ theorem InvG.cycle {m S start c0 V T D C cyc} (h : InvG m S start c0 V T D C cyc
     treeSnd := h.treeSnd
     treeMem := h.treeMem
     visChild := h.visChild
+    treeAsym := h.treeAsym
     discSymm := fun a b hab => by
       rw [memD] at hab ⊢
       rcases hab with ⟨rfl, rfl⟩ | ⟨rfl, rfl⟩ | hab
